@@ -229,7 +229,7 @@ PROPS = {
                        'replica and folds each once in arrival order, the loop stops exactly when the condition is false or the bound is reached, every feedback sender gets the verdict and the state once per '
                        'round, the final state is output once followed by FlushAndRestart and the leader restarts. The central sentence of C10 - every replica on every host evaluates round k against exactly '
                        'the state of round k-1 - is a cross-thread protocol (IterationStateLock, barrier, UnsafeCell) and is NOT decided.',
-        'assumptions': ['stale/newer state reads across threads and hosts (IterationStateHandler: lock, barrier, UnsafeCell): not decided - the handler is the environment of unit replay', 'Iterate::input_or_feedback / wait_update are verified (each link\'s batch is appended whole, in order, to its own stash; early input is stashed while waiting for the verdict); not pinned: a received batch that is silently dropped'],
+        'assumptions': ['stale/newer state reads across threads and hosts (IterationStateHandler: lock, barrier, UnsafeCell): not decided - the handler is the environment of unit replay', 'Iterate::input_or_feedback / wait_update are verified (exactly what each link handed out is appended whole, in order, to its own stash; early input is stashed while waiting for the verdict)'],
     },
     'C11': {
         'level': 'proof',
